@@ -270,8 +270,10 @@ def is_mergeable_step(mj):
     if k not in MERGEABLE_KINDS:
         return False
     if k == 'ChangeField':
-        if mj[5]:
-            return False       # type change
+        if mj[5] and mj[5] != 'Char':
+            return False       # type change (the alphabet never changes a
+            #                    type TO Char: that is the current type
+            #                    restated, an ordinary attribute change)
         if 'db_column' in mj[3]:
             return False       # column rename
     if k == 'AddField' and mj[3] == 'M2M':
